@@ -102,9 +102,13 @@ func Mul(x, y Number) Number {
 
 // Inv returns the dual inverse of d.
 func Inv(d Number) Number {
+	// (r+dϵ)⁻¹ = r⁻¹ - r⁻¹dr⁻¹ϵ with r⁻¹ = r̅/|r|²; r and d do not commute in general.
+	a := quat.Abs(d.Real)
+	s := 1 / (a * a)
+	c := quat.Conj(d.Real)
 	return Number{
 		Real: quat.Inv(d.Real),
-		Dual: quat.Scale(-1, quat.Mul(d.Dual, quat.Inv(quat.Mul(d.Real, d.Real)))),
+		Dual: quat.Scale(-s*s, quat.Mul(quat.Mul(c, d.Dual), c)),
 	}
 }
 
